@@ -390,6 +390,7 @@ def run(pid, tier, seed, rundir, model_run):
             with Sandbox(pid) as sb:
                 h = Hist(sb, swap=(run_variant == "swap"))
                 ccnames = []
+                d10_seen = False      # a D10 clash earlier in THIS history: what follows from it later (record, idleness) is the same finding
                 history_txt = []
                 tmt = 1_600_000_000
                 for opi, op in enumerate(hops):
@@ -480,7 +481,13 @@ def run(pid, tier, seed, rundir, model_run):
                                     excused = (pid == "C02" and T.get(p) == c and other.get(p) != c)
                                     if not on_both and not excused:
                                         post_side = da2 if side == "A" else db2
-                                        if ".conflict-" in p and post_side.get(p) not in (None, c):
+                                        # D10's signature, exactly: the lost version lived at the conflict-copy NAME of a stem path q that was
+                                        # itself in conflict in this run, and what now sits at that name is one of q's two versions (the loser
+                                        # written over it). A version lost at a conflict-copy-named path in any OTHER way is a new violation
+                                        # (seed C02-L: a conflict ON the copy filed its loser under the copy's own name).
+                                        d10 = any(p.startswith(q + ".conflict-") and da.get(q) is not None and db.get(q) is not None and da.get(q) != db.get(q)
+                                                  and post_side.get(p) in (da.get(q), db.get(q)) for q in set(da) | set(db))
+                                        if ".conflict-" in p and post_side.get(p) not in (None, c) and (d10 or d10_seen):
                                             key = "conflict-copy-name-was-live"
                                         elif p not in T and trusted and trusted.get(p) == c:
                                             key = "stale-archive-entry-deletes-recreated-file"
@@ -494,13 +501,19 @@ def run(pid, tier, seed, rundir, model_run):
                                 for p in pre:
                                     if p not in post:
                                         res["violations"].append(("delete-without-trusted-archive", f"{side}/{p} was removed although no trusted archive existed", rep))
+                        # D10's situation, exactly: a path q in conflict in this run whose loser's conflict-copy name was ALREADY live, on
+                        # either side, with other content. Only then are "record ≠ tree" / "second run not idle" the known finding.
+                        d10_clash = any(da[q] != db[q] and any(sd.get(f"{q}.conflict-{HOST}-{min(da[q], db[q])[:12]}") not in (None, min(da[q], db[q])) for sd in (da, db))
+                                        for q in set(da) & set(db))
+                        d10_seen = d10_seen or d10_clash
+                        d10_clash = d10_seen
                         if pid == "C06" and status in ("ok", "conflicts"):
                             if da2 != db2:
                                 res["violations"].append(("not-converged", "after a completed run the two trees differ", rep))
                             elif trusted2 != da2:
                                 if trusted2 and set(trusted2) - set(da2) and all(trusted2.get(k) == v for k, v in da2.items()):
                                     key = "archive-keeps-entries-for-absent-paths"
-                                elif any(".conflict-" in p for p in list(da) + list(db)):
+                                elif d10_clash:
                                     key = "archive-ne-tree-after-conflict-copy-clash"
                                 else:
                                     key = "archive-ne-tree"
@@ -509,7 +522,7 @@ def run(pid, tier, seed, rundir, model_run):
                             rc3, out3, err3, plan3, conf3, safe3 = h.bisync()
                             ta3, tb3, _, tr3 = h.observe()
                             if plan3 != 0 or digests(ta3) != da2 or digests(tb3) != db2:
-                                key = "not-idempotent-after-conflict-copy-clash" if any(".conflict-" in p for p in da) else "not-idempotent"
+                                key = "not-idempotent-after-conflict-copy-clash" if d10_clash else "not-idempotent"
                                 res["violations"].append((key, f"an immediate second run planned {plan3} action(s) or changed a tree", rep))
                             count("idempotence-probes")
                         if status in ("ok", "conflicts"):
